@@ -143,6 +143,10 @@ def run(v, tier):
     v.sample({'pre_stack': cases[-1]['stack'], 'ins': cases[-1]['ins'], 'out': cases[-1]['out']})
     cases = c01.impl_bfs(alphabet, 3 if quick else 4, [])
     report(v, c01.validate(v, 'c05-impl', cases, semsize=0), 'implementation-explored transition')
+    # rule instances from valid premises (the inductive-step family of C01: accepted ModusPonens / Generalization / Substitution / Instantiate)
+    report(v, c01.indstep(v, quick, tag='c05', semsize=0), 'rule instance from a valid premise')
+    never = sorted(o for o, (a, r) in v.cov.get('steps_by_opcode_accepted_rejected', {}).items() if a == 0 or r == 0)
+    v.cov['opcodes_never_accepted_or_never_rejected_in_step_cases'] = never      # non-vacuity of the step family
     # 2. exhaustive short byte programs, three phases, empty and pre-loaded state
     L = 2 if quick else 3
     progs = []
